@@ -328,6 +328,51 @@ class Cmp:
         return sampled
 
 
+def compare_templates(cmp, res, cases, impl):
+    """template stream (generics with type/subprogram generics, aliases with implicit aliases): go-to-declaration
+    against the hand-computed expectations of the template; no Coq model behind it"""
+    n = 0
+    with open(cases) as fc, open(impl) as fi:
+        for c, i in zip(fc, fi):
+            n += 1
+            case, _, vhdl = c.rstrip("\n").partition("\t")
+            vhdl = vhdl.replace("\\n", "\n")
+            sites, _, extra = i.rstrip("\n").partition(";")
+            kind = case.split()[0]
+            nontrivial = False
+            if "PANIC" in extra:
+                cmp.nviol += 1
+                res.violation("analysis panicked on a template instance", {"kind": "input", "template": case, "vhdl": vhdl[:6000]})
+                continue
+            for s in sites.split("|"):
+                if not s:
+                    continue
+                label, exp, got, cls = s.split("~")
+                cmp.bump("template_sites_" + kind)
+                if exp == "ERR":
+                    ok = cls != "OK"
+                    cmp.bump("template_sites_expected_error")
+                else:
+                    ok = got in exp.split("/") and cls == "OK"
+                    nontrivial = True
+                if not ok:
+                    cmp.nviol += 1
+                    if cmp.nviol <= 8:
+                        res.violation("template %s, site `%s`: go-to-declaration / diagnostics of the implementation (%s, %s) differ from the "
+                                      "hand-computed expectation (%s)" % (case, label, got, cls, "an error on the line" if exp == "ERR" else "declaration at " + exp),
+                                      {"kind": "input", "template": case, "site": label, "expected": exp, "got": got, "diagnostics": cls,
+                                       "vhdl": vhdl[:6000], "replay_cmd": "./check C07 --replay <this file>"})
+            if extra.strip():
+                cmp.nviol += 1
+                if cmp.nviol <= 8:
+                    res.violation("template %s: error diagnostics on lines where none is expected: %s" % (case, extra.strip()[:300]),
+                                  {"kind": "input", "template": case, "vhdl": vhdl[:6000]})
+            res.count_case("template " + case + vhdl, nontrivial)
+            if n % 61 == 1:
+                res.add_sample({"template": case, "vhdl": vhdl[:1200]})
+    res.coverage.setdefault("streams", {})["templates"] = n
+
+
 def main(tier, replay=None):
     res = Result(PROP, tier, level="proof")
     d = rundir(PROP)
@@ -360,8 +405,22 @@ def main(tier, replay=None):
         run(["rm", "-rf", work])
         return r
 
+    def template_stream(mode, sd, n):
+        cases, impl = (os.path.join(d, "templates.%s" % x) for x in ("cases", "impl"))
+        work = os.path.join(d, "work_templates")
+        rc, out = run([hbin, mode, str(sd), str(n), work, cases, impl], timeout=3000)
+        if rc != 0:
+            res.violation("harness c07 failed in mode %s" % mode, {"kind": "harness", "log": out[-2000:]}, no_failing_input=True)
+            return
+        compare_templates(cmp, res, cases, impl)
+        run(["rm", "-rf", work])
+
     sampled = []
-    if replay:
+    if replay and "template" in json.load(open(replay)):
+        rp = json.load(open(replay))
+        kind, sd, idx = rp["template"].split()
+        template_stream("template:" + idx, int(sd), 1)
+    elif replay:
         rp = json.load(open(replay))
         path = os.path.join(d, "replay.in")
         open(path, "w").write(rp["case"] + "\n")
@@ -373,9 +432,11 @@ def main(tier, replay=None):
         if tier == "thorough":
             sampled += stream("random", "random", 16000, 800)
             sampled += stream("deep", "deep", 4000, 800)
+            template_stream("templates", seed(), 4000)
         else:
             sampled += stream("random", "random", 400, 40)
             sampled += stream("deep", "deep", 100, 50)
+            template_stream("templates", seed(), 160)
     coq_cross_check(res, sampled[:40])
     if cmp.kf_char:
         c, site = cmp.kf_char_example
@@ -407,6 +468,18 @@ def main(tier, replay=None):
         "generator (never special-cased in the comparison; the runner's `fam` flag rejects such programs): two subprograms with "
         "EQUAL profiles in two packages. non-trivial = program has >= 2 design units and a resolved site whose name is use-visible or has >= 2 "
         "visible declarations; distinct by hash of the abstract program")
+    res.coverage["template_stream"] = (
+        "NOT covered by the Coq specification/model: (a) generic packages and generic functions with a TYPE generic and SUBPROGRAM "
+        "generics whose profile mentions it, instantiated (named / positional generic maps, package and function instantiations) with "
+        "actuals that are overloaded names (2-4 overloads differing in the result type only, some directly declared, some use-visible, "
+        "a decoy differing in the parameter type, sometimes no matching overload); use sites = the actual designators and the formal "
+        "designators; (b) aliases: type aliases of integer / array / record / enumeration types of another package used through "
+        "the alias only (predefined operators, to_string, literals), object aliases, subprogram aliases with signature, with "
+        "use-visible explicit homographs of the implicitly aliased operators (\"+\", \"&\", \"/=\", \"<\", double). Each randomised "
+        "instance carries HAND-COMPUTED expectations (acceptable go-to-declaration targets, or 'an error on this line'), derived "
+        "from LRM 6.5.6.3 / 6.6.3 by the template code in harness/src/bin/c07.rs; the implementation is judged against them "
+        "directly. Physical-type aliases are left out (the implementation does not alias the units: reported), as is the omitted "
+        "actual of an interface subprogram with default `is <>` (reported as 'No association', also reported)")
     res.coverage["trusted_base"] = TRUSTED_BASE_COMMON + [
         "the renderer of abstract programs to VHDL and the map from declaration positions to ids (harness/src/bin/c07.rs)",
         "entities outside the family's designator set (library/unit names, labels, implicit operators of types, `true`, `integer`) "
